@@ -26,6 +26,19 @@ CHECKS = {
         ],
         "outside": ["-args", "-C ordering", "what the go command does with the arguments", "toolexecCmd's assembly of the nested go command (I/O bound)", "cmdgoQuotedSplit/Join"],
     },
+    "C03": {
+        "level": "model_checking",
+        "level_text": "2-safety by bounded symbolic execution: garble's generators are run twice in one harness on the same symbolic inputs with the same seeded draw sequence (the second run reuses the first run's draw terms) while the process-global random source returns fresh values each time; the two printed trees must be the same code, with symbolic literals compared by the solver. Also purity of the name hash across interleaved users of the shared hasher and buffers",
+        "level_note": "trusted: gosx encoder, z3 5.1, go/printer executed by the engine; bounds: data of 1..2 (thorough 3) bytes, hardening dispatchers of 1..2 edges, no rejected keys; map-iteration dependence in ssa2ast/trash generation (internal/ssa2ast/func.go, internal/ctrlflow/trash.go) is outside this check (it needs go/ssa objects built inside the engine)",
+        "claim": "the literal obfuscators, their helpers and both dispatcher hardenings emit the same code for the same seeded draws; the name hash is a pure function",
+        "opts": dict(W, second="cvc5"),
+        "runs": [
+            {"harness": "H_C03_hash_pure", "uf": True, "reach": ["twice"], "bound": "salts of 1..2 bytes, identifiers of 1..2 bytes, three kinds of interleaved hashing"},
+            {"harness": "H_C03_literals_deterministic", "pkg": LIT, "reach": ["twice"], "bound_quick": "5 obfuscators + 2 helpers, data of 1..2 bytes", "bound_thorough": "1..3 bytes"},
+            {"harness": "H_C03_hardening_deterministic", "pkg": CF, "stubbed": True, "reach": ["twice"], "bound": "xor and delegate-table hardening, 1..2 dispatcher edges"},
+        ],
+        "outside": ["the go command, compiler, linker, clock, TMPDIR, -p", "seeding of the generator in transformCompile", "map iteration in ssa2ast.convertToStmts and the trash generator (known hazard per the property text)", "reflection analysis order (C08)"],
+    },
     "C05": {
         "level": "model_checking",
         "level_text": "bounded symbolic model checking of the real literal generators (internal/literals): every generator is run on symbolic data bytes, symbolic key values and symbolic random draws; the emitted go/ast tree is evaluated by a harness-side evaluator (symxeval, executed by the same engine) and the solver shows the result cannot differ from the original bytes. Composition is by lemmas: L1/L2 prove the contracts of byteLitWithExtKey and dataToByteSliceWithExtKeys, which the obfuscator harnesses then assume (stubs); L3-L7 prove each obfuscator's contract, which the wrapper harnesses (L8) assume; L9 proves the proxy dispatcher's contract",
@@ -41,6 +54,7 @@ CHECKS = {
             {"harness": "H_C05_L4c_swapcount", "pkg": LIT, "reach": ["generated"], "bound": "n symbolic in [1,2055]"},
             {"harness": "H_C05_L5_split", "pkg": LIT, "stubbed": True, "reach": ["generated"], "bound_quick": "n in {1,2,3}; symbolic permutation of case indexes; statement shuffles of 2 free, larger shuffles restricted to one order", "bound_thorough": "n in {1,2,3,4,8}"},
             {"harness": "H_C05_L5b_chunks", "pkg": LIT, "reach": ["generated"], "bound_quick": "n in {5,9}", "bound_thorough": "n in {5,9,12,13}"},
+            {"harness": "H_C05_L6b_shuffle_big", "pkg": LIT, "stubbed": True, "reach": ["generated"], "bound": "n=129 (shuffled buffer of 258 entries); identity permutation, 2-byte index key; data, operators, index keys symbolic"},
             {"harness": "H_C05_L6_shuffle", "pkg": LIT, "stubbed": True, "reach": ["generated"], "bound_quick": "n in {1,2,3}", "bound_thorough": "n in {1,2,3,4,8}"},
             {"harness": "H_C05_L7_seed", "pkg": LIT, "stubbed": True, "reach": ["generated"], "bound_quick": "n in {1,2,8}", "bound_thorough": "n in {1,2,8,32}"},
             {"harness": "H_C05_L8_string", "pkg": LIT, "stubbed": True, "reach": ["generated"], "bound_quick": "n=8; all junk lengths and split indexes; 2 keys of widths {8,16}", "bound_thorough": "n in {8,9,16}; all widths"},
